@@ -190,7 +190,7 @@ def run(ctx):
         mc_cov = mc.coverage_actions()
     # ---- 1. pools from TLC
     if quick:
-        gens = slice_for_seed(GEN, ctx.seed, 2)
+        gens = slice_for_seed(GEN, ctx.seed, 1)
         sims = [(slice_for_seed(SIM, ctx.seed, 1)[0], SIM_SEEDS[ctx.seed % len(SIM_SEEDS)])]
         nums = slice_for_seed(NUM, ctx.seed, 1)
     else:
@@ -211,8 +211,9 @@ def run(ctx):
             hist += recs
     log("[C27] pools %s in %.0fs" % (pools, time.time() - t0))
     if quick:
-        hist = slice_for_seed(hist, ctx.seed, 1600)
-        cases = slice_for_seed(cases, ctx.seed, 900)
+        walks = [h for h in hist if h["id"].startswith("sim:")]
+        hist = slice_for_seed([h for h in hist if not h["id"].startswith("sim:")], ctx.seed, 800) + slice_for_seed(walks, ctx.seed, 40)
+        cases = slice_for_seed(cases, ctx.seed, 600)
     # anti-vacuity: every operation of the model occurs in the pool, reverting and not
     opcount = {}
     for h in hist:
